@@ -176,6 +176,23 @@ let register (h : (string, string list -> string) Hashtbl.t)
       "F" ^ String.concat "" (List.map (fun (x, c) -> Printf.sprintf " %d:%d" (int_of_nat x) (int_of_nat c)) fw)
       ^ " | R" ^ String.concat "" (List.map (fun x -> Printf.sprintf " %d" (int_of_nat x)) bw)
     | _ -> failwith "listops args");
+  (* slguard <fuel> <op;op;...> <a> <b> -> 1/0: swap_lines_guard (Proofs/ChunkListProofs.v, the hypothesis of C02_swap_lines_keeps_every_chunk) in the state after the ops *)
+  Hashtbl.replace h "slguard" (fun args ->
+    match args with
+    | [fuel; ops; a; b] ->
+      let n x = nat_of_int (int_of_string x) in
+      let parse t = match String.split_on_char ',' t with
+        | ["A"; o; r; nl; c] -> NewAfter (n o, n r, nl <> "0", n c)
+        | ["B"; o; r; nl; c] -> NewBefore (n o, n r, nl <> "0", n c)
+        | ["D"; x] -> Delete (n x)
+        | ["M"; x; r] -> MoveAfter (n x, n r)
+        | ["S"; a; b] -> Swap (n a, n b)
+        | ["L"; a; b] -> SwapLines (n a, n b)
+        | _ -> failwith "slguard op" in
+      let l = List.map parse (List.filter (fun t -> t <> "") (String.split_on_char ';' ops)) in
+      let fu = n fuel in
+      if swap_lines_guard fu (cl_run fu l) (n a) (n b) then "1" else "0"
+    | _ -> failwith "slguard args");
   Hashtbl.replace h "check_exit" (fun args ->
     match args with
     | [bits] ->
